@@ -22,6 +22,8 @@ CONSTANTS Alphabet,    \* the characters sources are built from
 A == 1  SP == 2  DQ == 3  SQ == 4  HASH == 5  BS == 6  EACUTE == 7  REF == 8  EQ == 9  RPAR == 10
 VAL == 11     \* not a source character: the substituted value of the reference
 OPT == 12     \* a whole word: an option of the instruction the string is an argument of ("-contents-of")
+TMARK == 13   \* the two characters ":>" - alone and unquoted the marker of TEXT-UNTIL-END-OF-LINE; as part of a
+              \* longer word, or quoted, just these two characters
 
 Reserved == {<<EQ>>, <<RPAR>>}      \* the reserved words expressible over this alphabet: "=" and ")"
 
@@ -83,7 +85,7 @@ ListValue == [j \in 1..(IF Continues THEN NTok - 1 ELSE NTok) |-> Tokens[j][1]]
 \* STRING as the last argument of an instruction: exactly one token.  An UNQUOTED first word that is one of the
 \* instruction's options is that option - what follows is then not this syntax element.  A word with any quoted
 \* fragment is never an option: it denotes its characters.
-StringIsOption == NTok >= 1 /\ IsPlain(1) /\ Tokens[1][1] = <<OPT>>
+StringIsOption == NTok >= 1 /\ IsPlain(1) /\ Tokens[1][1] \in {<<OPT>>, <<TMARK>>}
 StringError == Unterminated \/ NTok # 1 \/ HasReserved
 StringValue == IF NTok >= 1 THEN Tokens[1][1] ELSE <<>>
 \* :> TEXT-UNTIL-END-OF-LINE: the rest of the line, blanks at both ends removed, references substituted, no quoting
